@@ -8,7 +8,7 @@
    Strings are ASCII byte strings.  [MAXSEG] = MAX_DYNAMIC_SEGMENTS of resource.rs. *)
 From AV Require Import Lib.Base Gen.Consts.
 From AV Require Import Router.Pattern Router.Match Router.Path Router.ResourceDef Router.Quoter
-  Router.Spec Router.MatchProofs Router.ResourceProofs Router.QuoterProofs.
+  Router.Spec Router.MatchProofs Router.ResourceProofs Router.ResourceProofs2 Router.QuoterProofs.
 
 Definition MAXSEG := ROUTER_MAX_DYNAMIC_SEGMENTS.
 
@@ -141,6 +141,44 @@ Theorem C10_capture_detailed : forall ps is_prefix rd pth pth',
                  forall n' ws', ~ Matches is_prefix q (unprocessed pth) n' ws').
 Proof. exact (capture_detailed MAXSEG). Qed.
 
+(* the same for EVERY constructed definition, pattern lists included: the parameters appended
+   by a successful capture are exactly the words of a decomposition of the matched prefix along
+   the member that matched (the first member that matches at all); building that member from
+   them, in order or by name, gives the matched prefix back; `resource_path_from_iter/_from_map`
+   of the definition itself use the segments of the FIRST member (as the code does), hence give
+   the matched prefix when that member is the one that matched *)
+Theorem C10_captures_are_substrings_any : forall ps is_prefix rd pth pth',
+  wf_patterns ps -> construct MAXSEG ps is_prefix = Val rd -> path_ok pth ->
+  capture_match_info MAXSEG rd pth = Val (true, pth') ->
+  exists idx p n ws,
+    let u := unprocessed pth in
+    let vals := values (p_segs p) ws in
+    nth_error (members ps) idx = Some p /\ Matches is_prefix p u n ws /\
+    (forall j q, (j < idx)%nat -> nth_error (members ps) j = Some q ->
+                 forall n' ws', ~ Matches is_prefix q u n' ws') /\
+    path_iter pth' = rbind (path_iter pth) (fun old => Val (old ++ vals)) /\
+    unprocessed pth' = skipn n u /\
+    build_from_iter (p_segs p) (map snd vals) [] = (true, firstn n u) /\
+    build_from_map (p_segs p) vals [] = (true, firstn n u) /\
+    (idx = 0%nat -> resource_path_from_iter rd (map snd vals) = (true, firstn n u) /\
+                    resource_path_from_map rd vals = (true, firstn n u)).
+Proof. exact (captures_are_substrings_any MAXSEG). Qed.
+
+(* build_resource_path, both ways of supplying the values: from the (name, value) pairs of any
+   match of the pattern -- looked up by name or consumed in order -- it writes the matched text;
+   a map with additional entries does as well *)
+Theorem C10_build_from_match : forall is_prefix p s n ws,
+  NoDup (var_names (p_segs p)) -> Matches is_prefix p s n ws ->
+  build_from_map (p_segs p) (values (p_segs p) ws) [] = (true, firstn n s) /\
+  build_from_iter (p_segs p) (map snd (values (p_segs p) ws)) [] = (true, firstn n s).
+Proof. exact build_from_match. Qed.
+
+Theorem C10_build_from_map_ext : forall is_prefix p s n ws vals,
+  Matches is_prefix p s n ws ->
+  (forall nm w, In (nm, w) (values (p_segs p) ws) -> assoc nm vals = Some w) ->
+  build_from_map (p_segs p) vals [] = (true, firstn n s).
+Proof. exact build_from_map_ext. Qed.
+
 (* ---------------------------------------------------------------------------- 4. round trip *)
 (* FULL STATEMENT (false in general, see the counter-example below): for every pattern and
    values in the segments' languages, matching the built path returns those values.
@@ -155,6 +193,29 @@ Theorem C10_roundtrip : forall p ws rd,
   exists pth', capture_match_info MAXSEG rd (path_new (concat ws)) = Val (true, pth') /\
     path_iter pth' = Val (values (p_segs p) ws) /\ unprocessed pth' = [].
 Proof. exact (roundtrip MAXSEG). Qed.
+
+(* tail patterns `.../{t}*` (full resource): the segments before the tail are delimited, the
+   tail value is arbitrary and may contain '/' (the tail takes everything that is left) *)
+Theorem C10_roundtrip_tail : forall p front t ws rd,
+  wf_pattern p -> p_tail p = true -> p_segs p = front ++ [SVar t tail_re] ->
+  delimited (fun _ => true) (p_segs p) = true ->
+  decomp (p_segs p) ws -> lenN (concat ws) <= u16_max ->
+  construct MAXSEG (Single p) false = Val rd ->
+  resource_path_from_iter rd (map snd (values (p_segs p) ws)) = (true, concat ws) /\
+  exists pth', capture_match_info MAXSEG rd (path_new (concat ws)) = Val (true, pth') /\
+    path_iter pth' = Val (values (p_segs p) ws) /\ unprocessed pth' = [].
+Proof. exact (roundtrip_tail MAXSEG). Qed.
+
+(* prefix resources (non-tail): delimited, and a dynamic segment in last position excludes '/' *)
+Theorem C10_roundtrip_prefix : forall p ws rd,
+  wf_pattern p -> is_static p = false -> p_tail p = false ->
+  delimited (re_excludes 47) (p_segs p) = true ->
+  decomp (p_segs p) ws -> lenN (concat ws) <= u16_max ->
+  construct MAXSEG (Single p) true = Val rd ->
+  resource_path_from_iter rd (map snd (values (p_segs p) ws)) = (true, concat ws) /\
+  exists pth', capture_match_info MAXSEG rd (path_new (concat ws)) = Val (true, pth') /\
+    path_iter pth' = Val (values (p_segs p) ws) /\ unprocessed pth' = [].
+Proof. exact (roundtrip_prefix MAXSEG). Qed.
 
 (* "/{a}-{b}" built from a = "x", b = "y-z" is "/x-y-z", which matches back as a = "x-y",
    b = "z": without the delimiter hypothesis the round trip fails for any matcher *)
